@@ -266,3 +266,7 @@ def run(ctx):
     for p, (st, kv, _) in list(zip(probes, results))[:3]:
         ctx.sample(dict(level=p[0], variant=p[1], probe=p[2], result=st, verdict=kv.get("v")))
     return dict(level="proof", rule="one case = one (variant, level, probe, outcome) of the forked sanitizer verifier; theorems cover all Int field values")
+
+
+def replay(ctx, rp):
+    return vc.replay(ctx, rp, san=True)
